@@ -77,6 +77,10 @@ def ty_str(t):
         return "(List %s)" % ty_str(t[1])     # a Python set, kept duplicate-free by `pySetAdd`
     if t[0] == "tab3":
         return "Tab3"                          # a numpy int64 array of shape (a, b, 3)
+    if t[0] == "struct":
+        return t[1]
+    if t[0] == "pyidx":
+        return "PyIdx"
     raise Unsupported("type " + repr(t))
 
 
@@ -91,6 +95,10 @@ def ty_join(a, b):
         return ("list", ty_join(a[1], b[1]))
     if not isinstance(a, str) and not isinstance(b, str) and a[0] == "set" and b[0] == "set":
         return ("set", ty_join(a[1], b[1]))
+    if a == ("pyidx",) and b == "Int":
+        return "Int"       # `n = action.index` where the index is a plain integer
+    if b == ("pyidx",) and a == "Int":
+        return "Int"
     if a == ("opt", None):
         return b if (not isinstance(b, str) and b[0] == "opt") else ("opt", b)
     if b == ("opt", None):
@@ -104,12 +112,12 @@ def ty_join(a, b):
 
 # action constructors of schedule.py: Lean constructor, argument types
 ACTIONS = {
-    "Forward": ("forward", ["Int", "Int", "Bool", "Bool", "enum"]),
-    "Reverse": ("reverse", ["Int", "Int", "Bool"]),
-    "Copy": ("copy", ["Int", "enum", "enum"]),
-    "Move": ("move", ["Int", "enum", "enum"]),
-    "EndForward": ("endForward", []),
-    "EndReverse": ("endReverse", []),
+    "Forward": ("forward", ["Int", "Int", "Bool", "Bool", "enum"], ["n0", "n1", "write_ics", "write_adj_deps", "storage"]),
+    "Reverse": ("reverse", ["Int", "Int", "Bool"], ["n1", "n0", "clear_adj_deps"]),
+    "Copy": ("copy", ["Int", "enum", "enum"], ["n", "from_storage", "to_storage"]),
+    "Move": ("move", ["Int", "enum", "enum"], ["n", "from_storage", "to_storage"]),
+    "EndForward": ("endForward", [], []),
+    "EndReverse": ("endReverse", [], []),
 }
 
 ACTION_TEXT = """/-- the six actions of schedule.py, arguments in the constructors' order -/
@@ -135,6 +143,10 @@ been told to reach `N` (schedule.py `finalize`: sets `_n = _max_n = N`) -/
 def clientHook (N n : Int) (max_n : Option Int) : Int × Option Int :=
   if max_n = none ∧ n ≥ N then (N, some N) else (n, max_n)"""
 
+
+
+# fields of the object types that are passed around as values
+STRUCTS = {"PyOp": {"type": "String", "index": ("pyidx",)}}
 
 class Fn:
     """signature of a translated function, for calls"""
@@ -253,6 +265,10 @@ class FnTr:
 
     def bind(self, target, t):
         if isinstance(target, ast.Tuple):
+            if t == ("pyidx",) and len(target.elts) == 2:
+                t = ("tuple", ["Int", "Int"])
+            if self.is_opt(t):
+                t = t[1]
             if t is not None and not isinstance(t, str) and t[0] == "tuple" and len(t[1]) == len(target.elts):
                 for e, tt in zip(target.elts, t[1]):
                     self.bind(e, tt)
@@ -277,6 +293,15 @@ class FnTr:
             if isinstance(e.value, str):
                 return "String"
             raise Unsupported("constant %r" % (e.value,))
+        if isinstance(e, ast.Attribute) and not (isinstance(e.value, ast.Name) and e.value.id == "self"):
+            bt = self.etype(e.value)
+            if bt is not None and not isinstance(bt, str) and bt[0] == "struct" and e.attr in STRUCTS[bt[1]]:
+                return STRUCTS[bt[1]][e.attr]
+        if isinstance(e, ast.Subscript) and isinstance(e.value, ast.Dict):
+            t = None
+            for v in e.value.values:
+                t = ty_join(t, self.etype(v))
+            return t
         if isinstance(e, (ast.Name, ast.Attribute)):
             k = self.vkey(e)
             if k is not None and k in self.vtypes:
@@ -360,6 +385,18 @@ class FnTr:
             if isinstance(e.value, str):
                 return '"%s"' % e.value.replace("\\", "\\\\").replace('"', '\\"')
             raise Unsupported("constant")
+        if isinstance(e, ast.Attribute) and not (isinstance(e.value, ast.Name) and e.value.id == "self"):
+            bt = self.etype(e.value)
+            if bt is not None and not isinstance(bt, str) and bt[0] == "struct" and e.attr in STRUCTS[bt[1]]:
+                r = "%s.%s" % (self.expr(e.value), e.attr)
+                if want == "num" and STRUCTS[bt[1]][e.attr] == ("pyidx",):
+                    return "(← idxSingle %s)" % r
+                return r
+        if isinstance(e, ast.Subscript) and isinstance(e.value, ast.Dict):
+            items = []
+            for k2, v2 in zip(e.value.keys, e.value.values):
+                items.append("(%s, %s)" % (self.expr(k2, "num"), self.expr(v2)))
+            return "(← pyDictGet [%s] %s)" % (", ".join(items), self.expr(e.slice, "num"))
         if isinstance(e, (ast.Name, ast.Attribute)):
             k = self.vkey(e)
             if k is not None and k in self.vtypes:
@@ -515,6 +552,8 @@ class FnTr:
             if isinstance(x, ast.Call) and isinstance(x.func, ast.Name) and (
                     x.func.id == self.pname or x.func.id in self.ctx.fns or x.func.id in self.oracles):
                 return True
+            if isinstance(x, ast.Subscript) and isinstance(x.value, ast.Dict):
+                return True
             if isinstance(x, ast.Subscript):
                 bt = self.etype(x.value)
                 if self.is_opt(bt) or (bt is not None and not isinstance(bt, str) and bt[0] in ("list", "tab3")):
@@ -624,7 +663,16 @@ class FnTr:
                 elif isinstance(x, ast.For):
                     tg = [x.target]
                 for t in tg:
-                    for y in (t.elts if isinstance(t, ast.Tuple) else [t]):
+                    flat = []
+
+                    def fl(z):
+                        if isinstance(z, ast.Tuple):
+                            for w2 in z.elts:
+                                fl(w2)
+                        else:
+                            flat.append(z)
+                    fl(t)
+                    for y in flat:
                         if isinstance(y, ast.Subscript):
                             y = y.value
                         k = self.vkey(y)
@@ -677,6 +725,46 @@ class FnTr:
                 return "read"
         return None
 
+    def definitely_writes(self, k, stmts):
+        for st in stmts:
+            if isinstance(st, (ast.Assign, ast.AugAssign)):
+                tgs = st.targets if isinstance(st, ast.Assign) else [st.target]
+                for t in tgs:
+                    for y in ast.walk(t):
+                        if isinstance(y, (ast.Name, ast.Attribute)) and self.vkey(y) == k:
+                            return True
+            if isinstance(st, ast.If) and st.orelse and self.definitely_writes(k, st.body) \
+                    and self.definitely_writes(k, st.orelse):
+                return True
+        return False
+
+    def reads_before_write(self, k, stmts):
+        """may `stmts` read variable `k` before assigning it (on some path)?"""
+        for st in stmts:
+            if isinstance(st, ast.Assign) and len(st.targets) == 1:
+                if k in self.used([st.value]):
+                    return True
+                tks = [self.vkey(y) for y in ast.walk(st.targets[0]) if isinstance(y, (ast.Name, ast.Attribute))]
+                if k in tks:
+                    return False
+                continue
+            if isinstance(st, ast.If):
+                if k in self.used([st.test]):
+                    return True
+                if self.reads_before_write(k, st.body) or self.reads_before_write(k, st.orelse):
+                    return True
+                if st.orelse and self.definitely_writes(k, st.body) and self.definitely_writes(k, st.orelse):
+                    return False
+                continue
+            if isinstance(st, (ast.While, ast.For)):
+                hdr = [st.test] if isinstance(st, ast.While) else [st.iter]
+                if k in self.used(hdr) or self.reads_before_write(k, st.body):
+                    return True
+                continue
+            if k in self.used([st]):
+                return True
+        return False
+
     def live_after(self, k, rest):
         """is the value of `k` read by `rest` before being overwritten? (conservative)"""
         return self.first_access(k, rest) == "read"
@@ -698,16 +786,22 @@ class FnTr:
         if not (isinstance(call, ast.Call) and isinstance(call.func, ast.Name) and call.func.id in ACTIONS):
             raise Unsupported("yield of something that is not an action constructor")
         nm = call.func.id
-        if call.keywords or len(call.args) != len(ACTIONS[nm][1]):
+        pnames = ACTIONS[nm][2]
+        given = list(call.args) + [None] * (len(pnames) - len(call.args))
+        for kw in call.keywords:
+            if kw.arg not in pnames or given[pnames.index(kw.arg)] is not None:
+                raise Unsupported("action %s with unexpected keyword %s" % (nm, kw.arg))
+            given[pnames.index(kw.arg)] = kw.value
+        if len(call.args) > len(pnames) or any(g is None for g in given):
             raise Unsupported("action %s with unexpected arguments" % nm)
         args = []
-        for a, ty in zip(call.args, ACTIONS[nm][1]):
+        for a, ty in zip(given, ACTIONS[nm][1]):
             if ty == "Int":
                 args.append(self.expr(a, "num"))
             elif ty == "Bool":
                 args.append(self.expr(a) if self.etype(a) == "Bool" else "(decide %s)" % self.cond_pure(a))
             else:
-                args.append(self.expr(a))
+                args.append(self.expr(a, "num") if self.is_opt(self.etype(a)) else self.expr(a))
         act = "PyAction.%s%s" % (ACTIONS[nm][0], "".join(" " + a for a in args))
         ex = "self_exhausted" if "self.exhausted" in self.vtypes else "false"
         out.append("%sout_ := out_ ++ [PyEv.mk (%s) self_n self_r %s]" % (ind, act, ex))
@@ -826,12 +920,14 @@ class FnTr:
                     raise Unsupported("list method call (line %d)" % st.lineno)
                 continue
             if isinstance(st, ast.Expr) and isinstance(st.value, ast.Call) and isinstance(st.value.func, ast.Attribute) \
-                    and self.vkey(st.value.func.value) in self.vtypes and st.value.func.attr in ("add", "remove") \
+                    and self.vkey(st.value.func.value) in self.vtypes and st.value.func.attr in ("add", "remove", "discard") \
                     and self.is_set(self.vtypes.get(self.vkey(st.value.func.value))) and len(st.value.args) == 1:
                 k = self.vkey(st.value.func.value)
                 fnm = "pySetAdd" if st.value.func.attr == "add" else "(← pySetRemove"
                 if st.value.func.attr == "add":
                     out.append("%s%s := pySetAdd %s %s" % (ind, self.vn(k), self.vn(k), self.expr(st.value.args[0], "num")))
+                elif st.value.func.attr == "discard":
+                    out.append("%s%s := %s.erase %s" % (ind, self.vn(k), self.vn(k), self.expr(st.value.args[0], "num")))
                 else:
                     out.append("%s%s := (← pySetRemove %s %s)" % (ind, self.vn(k), self.vn(k), self.expr(st.value.args[0], "num")))
                 continue
@@ -866,26 +962,43 @@ class FnTr:
                     tgt = st.target
                     val = self.expr(ast.BinOp(left=st.target, op=st.op, right=st.value))
                 if isinstance(tgt, ast.Tuple):
-                    names = [self.vkey(x) for x in tgt.elts]
-                    if any(n is None for n in names):
-                        raise Unsupported("assignment target")
                     vt = self.etype(st.value)
+                    if vt == ("pyidx",):
+                        vt = ("tuple", ["Int", "Int"])
+                        val = "(← idxPair %s)" % self.expr(st.value)
                     if self.is_opt(vt):
                         vt = vt[1]
                         val = self.expr(st.value, "num")
-                    if vt is None or isinstance(vt, str) or vt[0] != "tuple" or len(vt[1]) != len(names):
+                    if vt is None or isinstance(vt, str) or vt[0] != "tuple":
                         raise Unsupported("tuple assignment from a value of type %r" % (vt,))
                     tmp = "tup_%d" % self.fresh()
                     out.append("%slet %s := %s" % (ind, tmp, val))
-                    for i2, nme in enumerate(names):
-                        if nme == "_":
-                            continue
-                        proj = ".2" * i2 + (".1" if i2 < len(names) - 1 else "")
-                        if nme in defined:
-                            out.append("%s%s := %s%s" % (ind, self.vn(nme), tmp, proj))
-                        else:
-                            out.append("%slet mut %s : %s := %s%s" % (ind, self.vn(nme), ty_str(self.vtypes.get(nme)), tmp, proj))
-                            defined.add(nme)
+
+                    def unpack(tg, ty, path):
+                        if ty is None or isinstance(ty, str) or ty[0] != "tuple" or len(ty[1]) != len(tg.elts):
+                            raise Unsupported("tuple assignment: shapes differ")
+                        for i2, (te, ce) in enumerate(zip(tg.elts, ty[1])):
+                            proj = path + ".2" * i2 + (".1" if i2 < len(tg.elts) - 1 else "")
+                            if isinstance(te, ast.Tuple):
+                                unpack(te, ce, proj)
+                                continue
+                            nme = self.vkey(te)
+                            if nme is None:
+                                raise Unsupported("assignment target")
+                            if nme == "_":
+                                continue
+                            vty = self.vtypes.get(nme)
+                            rhs = "%s%s" % (tmp, proj)
+                            if self.is_opt(vty) and not self.is_opt(ce):
+                                rhs = "(some %s)" % rhs
+                            elif not self.is_opt(vty) and self.is_opt(ce):
+                                rhs = "(← unwrap %s)" % rhs
+                            if nme in defined:
+                                out.append("%s%s := %s" % (ind, self.vn(nme), rhs))
+                            else:
+                                out.append("%slet mut %s : %s := %s" % (ind, self.vn(nme), ty_str(vty), rhs))
+                                defined.add(nme)
+                    unpack(tgt, vt, "")
                     continue
                 k = self.vkey(tgt)
                 if k is None:
@@ -896,6 +1009,10 @@ class FnTr:
                     val = "(some %s)" % val
                 if not self.is_opt(t) and isinstance(st, ast.Assign) and self.is_opt(self.etype(st.value)):
                     val = self.expr(st.value, "num")
+                if isinstance(st, ast.Assign) and self.etype(st.value) == ("pyidx",) and (t == "Int" or t == ("opt", "Int")):
+                    val = self.expr(st.value, "num")
+                    if self.is_opt(t):
+                        val = "(some %s)" % val
                 if k in defined:
                     out.append("%s%s := %s" % (ind, self.vn(k), val))
                 else:
@@ -1085,6 +1202,13 @@ class FnTr:
                 a, b = "(0 : Int)", self.expr(it.args[0], "num")
             elif len(it.args) == 2:
                 a, b = self.expr(it.args[0], "num"), self.expr(it.args[1], "num")
+            elif len(it.args) == 3 and ast.unparse(it.args[2]) == "-1":
+                a, b = self.expr(it.args[0], "num"), self.expr(it.args[1], "num")
+                out.append("%sfor %s in pyRangeDown %s %s do" % (ind, self.vn(st.target.id), a, b))
+                d = set(defined)
+                d.add(st.target.id)
+                out.extend(self.block(st.body, ind + "  ", d, in_loop=True))
+                return out
             else:
                 raise Unsupported("range with a step")
             out.append("%sfor %s in pyRange %s %s do" % (ind, self.vn(st.target.id), a, b))
@@ -1123,7 +1247,7 @@ class FnTr:
                                    (["self.n", "self.max_n"] if self.gen.get("online") else []) if k not in assigned]
         for x in ast.walk(st):   # lists changed by append / pop
             if isinstance(x, ast.Call) and isinstance(x.func, ast.Attribute) and \
-                    x.func.attr in ("append", "pop", "add", "remove"):
+                    x.func.attr in ("append", "pop", "add", "remove", "discard"):
                 k = self.vkey(x.func.value)
                 if k in self.vtypes and k not in assigned:
                     assigned.append(k)
@@ -1133,9 +1257,17 @@ class FnTr:
             if called:
                 for k in self.assigned(fn.body) + [self.vkey(x.func.value) for x in ast.walk(fn)
                                                    if isinstance(x, ast.Call) and isinstance(x.func, ast.Attribute)
-                                                   and x.func.attr in ("append", "pop", "add", "remove")]:
+                                                   and x.func.attr in ("append", "pop", "add", "remove", "discard")]:
                     if k in self.vtypes and k not in assigned:
                         assigned.append(k)
+        pre_decl = []
+        for k in [k for k in assigned if k not in defined]:
+            if self.reads_before_write(k, st.body):
+                # read in an iteration before it is assigned in that iteration: the value of an EARLIER iteration
+                # (Python: UnboundLocalError if there was none; here: a default value)
+                pre_decl.append("%slet mut %s : %s := default  -- loop-carried, first assigned inside the loop (line %d)" % (
+                    ind, self.vn(k), ty_str(self.vtypes.get(k)), st.lineno))
+                defined.add(k)
         mutated = [k for k in assigned if k in defined]
         local = [k for k in assigned if k not in defined]
         for k in local:
@@ -1181,7 +1313,7 @@ class FnTr:
         lines.extend(self.block(st.body, "      ", d, in_loop=True, tail=tail))
         lines.append("    else pure (%s)" % st_pat)
         self.aux.append("\n".join(lines))
-        return ["%s(%s) ← %s%s fuel (%s)" % (ind, st_pat, name, roargs, st_pat)]
+        return pre_decl + ["%s(%s) ← %s%s fuel (%s)" % (ind, st_pat, name, roargs, st_pat)]
 
     # ---- the whole function ----
     def translate(self):
@@ -1304,6 +1436,36 @@ def prune_constants(fn, env):
     return fn
 
 
+def split_dict_keys(fn):
+    """`X, n = a.index` / `X = 1` … `X = {0: A, 1: B}[X]`: the variable changes its type (key -> value).  The key
+    gets its own name `X_key` (in the subscript and in the closest preceding assignment of the same block)."""
+    import copy
+    fn = copy.deepcopy(fn)
+
+    def fix(stmts):
+        for i, st in enumerate(stmts):
+            for sub in ("body", "orelse"):
+                if isinstance(getattr(st, sub, None), list):
+                    fix(getattr(st, sub))
+            if isinstance(st, ast.Assign) and len(st.targets) == 1 and isinstance(st.targets[0], ast.Name) \
+                    and isinstance(st.value, ast.Subscript) and isinstance(st.value.value, ast.Dict) \
+                    and isinstance(st.value.slice, ast.Name) and st.value.slice.id == st.targets[0].id:
+                x = st.targets[0].id
+                st.value.slice = ast.copy_location(ast.Name(id=x + "_key", ctx=ast.Load()), st.value.slice)
+                for prev in reversed(stmts[:i]):
+                    done = False
+                    if isinstance(prev, ast.Assign):
+                        for t in prev.targets:
+                            for y in ([t] if isinstance(t, ast.Name) else list(ast.walk(t))):
+                                if isinstance(y, ast.Name) and y.id == x and isinstance(y.ctx, ast.Store):
+                                    y.id = x + "_key"
+                                    done = True
+                    if done:
+                        break
+    fix(fn.body)
+    return fn
+
+
 def find_def(tree, qual):
     parts = qual.split(".")
     body = tree.body
@@ -1353,6 +1515,8 @@ FUNCTIONS = [
     ("mixed.py", "mixed_step_memoization", "mixed_step_memoization", {}, {"recursive": True, "cache_step": True}),
     ("hrevolve_sequences/basic_functions.py", "argmin", "argmin", {"list": ("list", "Int")}, {}),
     ("mixed.py", "mixed_steps_tabulation", "mixed_steps_tabulation", {}, {}),
+    ("hrevolve.py", "_convert_action", "convert_action", {"action": ("struct", "PyOp")}, {"split_dict_keys": True}),
+    ("hrevolve.py", "_last_reads", "last_reads", {"schedule": ("list", ("struct", "PyOp"))}, {}),
 ]
 
 ENUMS = [("schedule.py", "StepType"), ("schedule.py", "StorageType")]
@@ -1407,6 +1571,8 @@ GENERATORS = [
     ("mixed.py", "MixedCheckpointSchedule._iterator", "mixed_iterator",
      dict(F_BASE, snapshots="Int", storage=("enum", "StorageType"), exhausted="Bool"),
      {"offline": True, "consts": {"numba": None}}),
+    ("hrevolve.py", "RevolveCheckpointSchedule._iterator", "revolve_iterator",
+     dict(F_BASE, schedule=("list", ("struct", "PyOp")), exhausted="Bool"), {"offline": True}),
     ("twolevel_binomial.py", "TwoLevelCheckpointSchedule._iterator", "twoLevel_iterator",
      dict(F_BASE, period="Int", binomial_snapshots="Int", binomial_storage=("enum", "StorageType"),
           trajectory="String"), {"online": True, "passes": True}),
@@ -1481,6 +1647,7 @@ def generate(repo):
     except (OSError, SyntaxError):
         pass
     ctx = Ctx(enums, {}, consts)
+    late_chunks = []
     for f, qual, lean, ptypes, opts in FUNCTIONS:
         try:
             node = find_def(tree(f), qual)
@@ -1496,16 +1663,19 @@ def generate(repo):
                     raise Unsupported("decorator %s" % d)
             if node.args.vararg or node.args.kwarg:
                 raise Unsupported("*args/**kwargs")
+            if opts.get("split_dict_keys"):
+                node = split_dict_keys(node)
             tr = FnTr(ctx, node, qual.split(".")[-1], lean, ptypes, bool(opts.get("recursive")),
                       cache_step=has_cache, src="%s:%d-%d" % (f, node.lineno, node.end_lineno))
             text, fuel = tr.emit()
-            chunks.append(text)
+            (late_chunks if f == "hrevolve.py" else chunks).append(text)
             ctx.fns[qual.split(".")[-1]] = Fn(lean, tr.params, tr.ret, fuel)
             status[lean] = "ok"
         except (Unsupported, SyntaxError, OSError, KeyError, IndexError, TypeError, AttributeError) as e:
             status[lean] = "untranslatable: %s: %s" % (type(e).__name__, e)
     if "StorageType" in enums:
         chunks.insert(len(enums), ACTION_TEXT)
+        chunks.extend(late_chunks)
         for entry in METHODS:
             f, qual, lean, ptypes, fields, mfields = entry[:6]
             orc = entry[6] if len(entry) > 6 else None
